@@ -320,8 +320,11 @@ def readText (items : List SItem) (text : List Nat) : Option TFields :=
 /-- the clause under which the property demands an ERROR for a text with these fields (`none`: nothing is
     demanded): a date (year, month, day) or an ordinal date (year, day of year) with out-of-range fields in
     the sense of `Spec.mustReject` (month 13, day beyond the month, hour > 24, minute > 59, second > 60, a leap
-    second where there is none), a day of year outside 1..365/366, or a weekday that is not the weekday of the
-    date.  Hour 24 stays open, as in C08. -/
+    second where there is none — on the ONE date the text names), a day of year outside 1..365/366, a month or a
+    day of the month written next to a day of year that is not the month / day of that day of the year, or a weekday
+    that is not the weekday of the date.  Hour 24 stays open, as in C08.  Years beyond ±3 000 000 — the range over
+    which C08 states anything; the representable range ends near ±3 276 000 years from 1900 and results saturate
+    there, "a bound is hit" — are left open altogether. -/
 def mustRejectText (F : TFields) : Option String :=
   let h := F.h.getD 0
   let mi := F.mi.getD 0
@@ -329,14 +332,19 @@ def mustRejectText (F : TFields) : Option String :=
   let ns := F.ns.getD 0
   match F.y, F.doy with
   | some y, some j =>
-    if j < 1 ∨ j > (if isLeap y then 366 else 365) then some "day_of_year_out_of_range"
+    if y < -3000000 ∨ y > 3000000 then none
+    else if j < 1 ∨ j > (if isLeap y then 366 else 365) then some "day_of_year_out_of_range"
     else if (match F.mo, F.d with | some m, some d => !(validDate ⟨y, m, d⟩) | _, _ => false) then some "invalid_date"
     else
       let dt := dateOfDayNumber (dayNumber ⟨y, 1, 1⟩ + j - 1)
-      if mustReject iersLeapDates dt h mi s ns then some "time_out_of_range"
+      if (match F.mo with | some m => decide (m ≠ dt.m) | none => false) ||
+         (match F.d with | some d => decide (d ≠ dt.d) | none => false) then some "date_and_day_of_year_disagree"
+      else if mustReject iersLeapDates dt h mi s ns then some "time_out_of_range"
       else if (match F.wd with | some w => decide (w ≠ dayNumber dt % 7) | none => false) then some "weekday_mismatch"
       else none
   | some y, none =>
+    if y < -3000000 ∨ y > 3000000 then none
+    else
     (match F.mo, F.d with
      | some m, some d =>
        if mustReject iersLeapDates ⟨y, m, d⟩ h mi s ns then
